@@ -1895,7 +1895,9 @@ class System:
 
         names = []
         for instance in models.values():
-            times = np.array(instance.get_times()).ravel()
+            times = instance.get_times()
+            # devices of one model may have different numbers of time stamps (e.g., time series)
+            times = np.concatenate([np.ravel(item) for item in times]) if len(times) else np.array([], dtype=float)
             out = np.append(out, times)
             out = np.append(out, times - eps)
             out = np.append(out, times + eps)
